@@ -11,7 +11,9 @@ with the reports on the unchanged tree:
 
 Case kinds: replace (ordered literal replacements in one file), regex
 (re.subn replacements in one file), patch (a unified diff, e.g. a seeded
-defect from /verif/seeded/<id>/patch.diff).
+defect from /verif/seeded/<id>/patch.diff), tool (a behaviour-preserving
+rewrite of one file by checker/cmd/benign at every applicable site).
+The property "ALL" runs every property over one loaded program.
 
 usage: st.py [-j N] [-k substr] [-p PROP] [--repo DIR] [corpus.json ...]
 exit 0 iff every case behaved as expected (cases whose pattern no longer
@@ -23,6 +25,7 @@ from concurrent.futures import ThreadPoolExecutor
 HERE = os.path.dirname(os.path.abspath(__file__))
 VERIF = os.path.dirname(HERE)
 BIN = os.path.join(VERIF, "checker", "bin", "mpcverif")
+BENIGN = os.path.join(VERIF, "checker", "bin", "benign")
 ENV = dict(os.environ)
 ENV["PATH"] = "/opt/veriftools/go1.26.8/bin:" + ENV["PATH"]
 ENV.update(GOTOOLCHAIN="local", GOFLAGS="-mod=mod", GOPROXY="off")
@@ -72,6 +75,11 @@ def apply_case(case, tmp):
             cmd.insert(1, "-R")
         r = subprocess.run(cmd, cwd=tmp, capture_output=True, text=True)
         return None if r.returncode == 0 else "patch does not apply: " + (r.stdout + r.stderr)[:200]
+    if case["kind"] == "tool":
+        r = subprocess.run([BENIGN, "-kind", case["tool"], "-file", os.path.join(tmp, case["file"])], capture_output=True, text=True, env=ENV, cwd=tmp)
+        if r.returncode == 3:
+            return "no site"
+        return None if r.returncode == 0 else "tool failed: " + (r.stdout + r.stderr)[:200]
     path = os.path.join(tmp, case["file"])
     s = open(path).read()
     for old, new in case["pairs"]:
@@ -93,11 +101,14 @@ def run_case(case, repo, scratch_root):
     try:
         subprocess.run(["rsync", "-a", "--exclude", ".git", "--exclude", "pkg", "--exclude", "docs", repo + "/", tmp + "/"], check=True)
         err = apply_case(case, tmp)
+        if err == "no site":
+            return [("SKIP", case, "", "transformation has no site in this file")]
         if err:
             return [("STALE", case, "", err)]
         b = subprocess.run(["go", "build", "./..."], cwd=tmp, capture_output=True, text=True, env=ENV)
         if b.returncode != 0:
-            return [("NOBUILD", case, "", b.stderr[:300])]
+            # a generated rewrite that does not compile is a limitation of the generator, not a verdict
+            return [("SKIP" if case["kind"] == "tool" else "NOBUILD", case, "", b.stderr[:300])]
         for prop in case["props"]:
             brc, brep = baseline(repo, prop)
             rc, rep = reports(tmp, prop)
@@ -132,6 +143,8 @@ def main():
         cases = [c for c in cases if c["props"]]
     if not os.path.exists(BIN):
         subprocess.run(["go", "build", "-o", "bin/mpcverif", "./cmd/mpcverif"], cwd=os.path.join(VERIF, "checker"), env=ENV, check=True)
+    if not os.path.exists(BENIGN):
+        subprocess.run(["go", "build", "-o", "bin/benign", "./cmd/benign"], cwd=os.path.join(VERIF, "checker"), env=ENV, check=True)
     tally = {}
     bad = []
     with ThreadPoolExecutor(a.j) as ex:
@@ -140,7 +153,7 @@ def main():
                 tally[st] = tally.get(st, 0) + 1
                 line = "%-7s %-5s %-6s %-34s %s" % (st, c["expect"], prop, c["name"][:34], msg)
                 print(line, flush=True)
-                if st != "OK":
+                if st not in ("OK", "SKIP"):
                     bad.append(line)
     print("selftest:", " ".join("%s=%d" % kv for kv in sorted(tally.items())), "cases=%d" % len(cases))
     sys.exit(0 if not bad else 1)
